@@ -713,6 +713,13 @@ impl Scenario for C01Cycles {
         // strict and non-strict loading may legitimately build different models from one text (C06)
         let strict = cx.tape.chance(1, 2) && entry != 1 && entry != 4;
         let mut feats = Features::default();
+        // a built-in A2ML specification (the a2ml_spec argument) used for every load of this history: the document
+        // then has no A2ML block of its own and its IF_DATA follows the built-in definition
+        let builtin_def = if entry != 3 && cx.tape.chance(1, 5) { Some(crate::a2mlgen::gen_a2ml(&mut cx.tape)) } else { None };
+        let builtin: Option<String> = builtin_def.as_ref().map(|d| d.text.clone());
+        if builtin.is_some() {
+            cx.probe("built-in-a2ml-specification");
+        }
 
         // ---- initial model
         let mut model: A2lFile = match entry {
@@ -724,7 +731,12 @@ impl Scenario for C01Cycles {
                 let mut opts = GenOpts::swarm(&mut cx.tape);
                     opts.shuffle_positions = cx.tape.chance(1, 5);
                 let lo = LayoutOpts::swarm(&mut cx.tape);
+                if builtin_def.is_some() {
+                    opts.allow_a2ml = false;
+                    opts.allow_ifdata = true;
+                }
                 let mut g = DocGen::new(&mut cx.tape, opts);
+                g.a2ml_variant = builtin_def.clone();
                 let nodes = g.fragment();
                 let f1 = g.feats.clone();
                 let r = render_nodes(&mut cx.tape, &nodes, &lo, 2);
@@ -733,9 +745,9 @@ impl Scenario for C01Cycles {
                 let loaded = if entry == 4 {
                     fs.put("/work/fragment.a2l", r.text.as_bytes());
                     fs.begin_op(BTreeMap::new(), false);
-                    sut::load_fragment_path(cx, "O1", "/work/fragment.a2l", None, r.text.len())?
+                    sut::load_fragment_path(cx, "O1", "/work/fragment.a2l", builtin.clone(), r.text.len())?
                 } else {
-                    sut::load_fragment(cx, "O1", &r.text, None)?
+                    sut::load_fragment(cx, "O1", &r.text, builtin.clone())?
                 };
                 match loaded {
                     Ok(module) => {
@@ -756,7 +768,12 @@ impl Scenario for C01Cycles {
                     let mut opts = GenOpts::swarm(&mut cx.tape);
                     opts.shuffle_positions = cx.tape.chance(1, 5);
                     let lo = LayoutOpts::swarm(&mut cx.tape);
+                    if builtin_def.is_some() {
+                        opts.allow_a2ml = false;
+                        opts.allow_ifdata = true;
+                    }
                     let mut g = DocGen::new(&mut cx.tape, opts);
+                    g.a2ml_variant = builtin_def.clone();
                     let nodes = g.document();
                     let f1 = g.feats.clone();
                     let r = render_nodes(&mut cx.tape, &nodes, &lo, 0);
@@ -767,9 +784,9 @@ impl Scenario for C01Cycles {
                 let res = if entry == 2 {
                     fs.put("/work/t0.a2l", text.as_bytes());
                     fs.begin_op(BTreeMap::new(), false);
-                    sut::load_path(cx, "O1", "/work/t0.a2l", None, strict, text.len())?
+                    sut::load_path(cx, "O1", "/work/t0.a2l", builtin.clone(), strict, text.len())?
                 } else {
-                    sut::load_str(cx, "O1", &text, None, strict)?
+                    sut::load_str(cx, "O1", &text, builtin.clone(), strict)?
                 };
                 match res {
                     Ok((f, _)) => f,
@@ -895,7 +912,7 @@ impl Scenario for C01Cycles {
                             // a torn file must be loadable without panic (Ok or Err)
                             let total = fs.get(&path).map_or(0, |d| d.len());
                             fs.begin_op(BTreeMap::new(), false);
-                            let r = sut::load_path(cx, "F2", &path, None, strict, total)?;
+                            let r = sut::load_path(cx, "F2", &path, builtin.clone(), strict, total)?;
                             cx.event(&format!("cycle {cycle}: loading the torn file -> {}", if r.is_ok() { "Ok".to_string() } else { "Err".to_string() }));
                             cx.probe("torn-save-then-load");
                         } else if before != fs.get(&path) {
@@ -919,8 +936,9 @@ impl Scenario for C01Cycles {
                 let k0 = cx.tape.draw_u64();
                 let k1 = cx.tape.draw_u64();
                 let src = text.clone();
+                let spec2 = builtin.clone();
                 let other = with_hash_keys(k0, k1, move || {
-                    std::panic::catch_unwind(|| match a2lfile::load_from_string(&src, None, false) {
+                    std::panic::catch_unwind(|| match a2lfile::load_from_string(&src, spec2.clone(), false) {
                         Ok((f, _)) => Some(f.write_to_string()),
                         Err(_) => None,
                     })
@@ -929,7 +947,7 @@ impl Scenario for C01Cycles {
                 if let Ok(Some(other_text)) = other {
                     // compared with the text written by *this* thread from its own reload, below
                     cx.digest_bytes(other_text.as_bytes());
-                    let here = match sut::load_str(cx, "O1", &text, None, false)? {
+                    let here = match sut::load_str(cx, "O1", &text, builtin.clone(), false)? {
                         Ok((f, _)) => Some(sut::write_str(cx, "no-panic", &f)?),
                         Err(_) => None,
                     };
@@ -988,7 +1006,7 @@ impl Scenario for C01Cycles {
                     plan.insert(f.0, f.1);
                 }
                 fs.begin_op(plan, false);
-                let r = sut::load_path(cx, "O1", &path, None, strict, bytes.len())?;
+                let r = sut::load_path(cx, "O1", &path, builtin.clone(), strict, bytes.len())?;
                 let fired = fs.fired();
                 for (_, f) in &fired {
                     cx.fault_fired(f.name());
@@ -1008,12 +1026,12 @@ impl Scenario for C01Cycles {
                     }
                     // retry without fault
                     fs.begin_op(BTreeMap::new(), false);
-                    sut::load_path(cx, "O1", &path, None, strict, bytes.len())?
+                    sut::load_path(cx, "O1", &path, builtin.clone(), strict, bytes.len())?
                 } else {
                     r
                 }
             } else {
-                sut::load_str(cx, "O1", &reload_text, None, strict)?
+                sut::load_str(cx, "O1", &reload_text, builtin.clone(), strict)?
             };
             let (m2, msgs) = match reloaded {
                 Ok(x) => x,
